@@ -87,6 +87,15 @@ def gen_module(rng, params):
             i = j
     desc["funcs"] = funcs
     entry_labels = [f["name"] for f in funcs.values()]
+    if len(funcs) >= 2 and rng.random() < params.get("shared_block_p", 0.0):
+        # a shared tail: the last block of one function is also listed in
+        # the functionBlocks of another (which function a block 'belongs to'
+        # is then the implementation's choice; only C11 uses such modules:
+        # the choice must not depend on UUIDs or hash seeds)
+        fid = rng.choice(sorted(funcs))
+        tail = [b for b in blocks if b.get("func") == fid and not b.get("entry")]
+        if tail:
+            tail[-1]["func2"] = rng.choice([f for f in sorted(funcs) if f != fid])
 
     # data section
     dblocks = []
